@@ -234,3 +234,81 @@ Definition check_ctl_case_big (c : list (list (N * cache_entry) * list (N * N)) 
           (if check_live_big live shadow (snd c) then [] else [n]) ++ go rest (n + 1)
       end in
   go (fst c) 0.
+
+(* ------------------------------------------------------------------------------------------------ *)
+(* Concurrent syncOwner calls (C10_Conc_Model.v): goroutine A is parked at its Write step, goroutine   *)
+(* B is started, A is released.  The same schedule is run in the model with the program extracted     *)
+(* from the source.  Threads: 3 = the calls before, 0 = A, 1 = B, 2 = the calls afterwards.           *)
+(* ------------------------------------------------------------------------------------------------ *)
+From Dae Require Import C10_Conc_Model.
+
+Record conc_obs := {
+  cn_pre : list cache_op; cn_a : cache_op; cn_b : cache_op; cn_post : list cache_op;
+  cn_lock_held : bool;                 (* impl: the tracker mutex could not be taken while A was parked *)
+  cn_b_completed : bool;               (* impl: B returned while A was parked *)
+  cn_shadow_conc : list (N * N);       (* impl kernel shadow after A and B returned *)
+  cn_shadow : list (N * N);            (* ... after the calls afterwards *)
+  cn_index : list (N * N);             (* impl tracker: merged bitmap per address at the end *)
+  cn_universe : list N
+}.
+
+Definition merged_at_ips (t : tracker) : N -> option N :=
+  fun ip => match t_ips t ip with Some st => Some (st_merged st) | None => None end.
+
+Fixpoint run_until_write (p : list instr) (g : gstate) (i : nat) (fuel : nat) : gstate :=
+  match fuel with
+  | O => g
+  | S f => match th_cur (g_threads g i) with
+           | Some (_, IWrite :: _) => g
+           | _ => run_until_write p (cstep p g i) i f
+           end
+  end.
+
+Definition shadow_eq (sh : list (N * N)) (m : N -> option N) (univ : list N) : bool :=
+  forallb (fun ip => optN_eqb (option_map snd (find (fun kv => fst kv =? ip) sh)) (m ip)) univ
+  && forallb (fun kv => existsb (N.eqb (fst kv)) univ) sh.
+
+(* error codes: 1 impl<>model (lock held / B completed / kernel map / merged)   2 impl<>spec (kernel shadow is the
+   table of neither sequential order)   3 model<>spec   7 impl: the mutex was not held at the write step or B
+   completed while A was parked there *)
+Definition check_conc (p : list instr) (c : conc_obs) : list N :=
+  let ops l := map op_of_cache_op l in
+  let todos := fun i : nat => match i with
+                              | 0%nat => [op_of_cache_op (cn_a c)]
+                              | 1%nat => [op_of_cache_op (cn_b c)]
+                              | 2%nat => ops (cn_post c)
+                              | 3%nat => ops (cn_pre c)
+                              | _ => [] end in
+  let K := (length p + 2)%nat in
+  let g1 := crun p (cinit todos) (repeat 3%nat (K * length (cn_pre c))) in
+  let g2 := run_until_write p g1 0%nat K in
+  let m_lock := match g_lock g2 with Some 0%nat => true | _ => false end in
+  let g3 := crun p g2 (repeat 1%nat K) in
+  let m_bdone := finished (g_threads g3 1%nat) in
+  let g4 := crun p g3 (repeat 0%nat K ++ repeat 1%nat K) in
+  let g5 := crun p g4 (repeat 2%nat (K * length (cn_post c))) in
+  let univ := cn_universe c in
+  let hab := ops (cn_pre c ++ [cn_a c; cn_b c]) in
+  let hba := ops (cn_pre c ++ [cn_b c; cn_a c]) in
+  let spec_ok (m : N -> option N) (post : list op) :=
+      forallb (fun ip => optN_eqb (m ip) (table_entry (hab ++ post) ip)) univ
+      || forallb (fun ip => optN_eqb (m ip) (table_entry (hba ++ post) ip)) univ in
+  let of_shadow (sh : list (N * N)) := fun ip => option_map snd (find (fun kv => fst kv =? ip) sh) in
+  let e1 := if Bool.eqb m_lock (cn_lock_held c) && Bool.eqb m_bdone (cn_b_completed c)
+               && shadow_eq (cn_shadow_conc c) (g_kmap g4) univ && shadow_eq (cn_shadow c) (g_kmap g5) univ
+               && shadow_eq (cn_index c) (merged_at_ips (g_tracker g5)) univ
+            then [] else [1] in
+  let e2 := if spec_ok (of_shadow (cn_shadow_conc c)) [] && spec_ok (of_shadow (cn_shadow c)) (ops (cn_post c))
+            then [] else [2] in
+  let e3 := if spec_ok (g_kmap g4) [] && spec_ok (g_kmap g5) (ops (cn_post c)) then [] else [3] in
+  let e7 := if cn_lock_held c && negb (cn_b_completed c) then [] else [7] in
+  e1 ++ e2 ++ e3 ++ e7.
+
+(* coverage signature: A and B share an address, A / B is a removal, number of calls before *)
+Definition conc_signature (c : conc_obs) : N * N * N * N :=
+  let ips x := match x with CInsert _ e => extract_ips (e_answers e) | CRemove _ => [] end in
+  let sh := existsb (fun ip => existsb (N.eqb ip) (ips (cn_b c))) (ips (cn_a c)) in
+  ((if sh then 1 else 0),
+   (match cn_a c with CRemove _ => 1 | _ => 0 end),
+   (match cn_b c with CRemove _ => 1 | _ => 0 end),
+   N.of_nat (length (cn_pre c))).
